@@ -145,13 +145,9 @@ func c07Observe(f *server.ExtAuthZFilter, target string) (triggered bool, err er
 	if err != nil {
 		return false, err
 	}
-	switch codes.Code(resp.GetStatus().GetCode()) {
-	case codes.OK:
-		return false, nil
-	case codes.PermissionDenied:
-		return true, nil
-	}
-	return false, fmt.Errorf("unexpected status %v", resp.GetStatus())
+	// triggered requests reach the chain, whose mock filter denies them (with whatever code a denial carries);
+	// bypassed ones are answered OK
+	return codes.Code(resp.GetStatus().GetCode()) != codes.OK, nil
 }
 
 var c07Pool = func() []c07Pat {
